@@ -1825,6 +1825,21 @@ def _pat_bytes(ex, st, pat, raw):
     return const_bytes(ex, st, pat)
 
 
+@pattern(r'<impl str>::(trim|trim_start|trim_end)$|<impl str>::(trim_matches|trim_start_matches|trim_end_matches)::<(char|&str|&&str|&String)>$')
+def m_str_trim(ex, st, args, dty, canon):
+    """str trimming on an unbounded (z3) string: the result is some substring of the argument (which one is
+    not modelled: over-approximation, named trim!... so that it is a value of the code, not a havoc)"""
+    s = deref_all(ex, st, args[0])
+    if isinstance(s, Obj) and s.kind == 'bstr':
+        raise Inconclusive('str::trim on a bounded byte string')
+    t = as_str(ex, st, s).t
+    fr = st.frames[-1]
+    name = 'trim!%s:%d:%d' % (fr.fn.text_hash, fr.bb, fr.visits.get(fr.bb, 0))
+    r = z3.String(name)
+    ex.axioms[name] = z3.Contains(t, r)
+    return Sc(r, 'str')
+
+
 @pattern(r'<impl str>::(strip_prefix|strip_suffix|starts_with|ends_with)::<(char|&str|&&str|&String)>$')
 def m_str_strip(ex, st, args, dty, canon):
     """on a bounded byte string with a literal pattern; strip_suffix forks on the length (the tail position
